@@ -12,14 +12,14 @@ def _key(c, r):
     return "sig-mix;%s;%s" % (vp.fingerprint(P["vals"]), sorted(r["tags"])[0])
 
 
-def arg_expr(name, info, is_comp):
+def arg_expr(name, info, is_comp, view=False):
     if is_comp:
-        return '<%s> = "%s"' % (name, name)
+        return ('<%s> = <%s/>' % (name, name)) if view else ('<%s> = "%s"' % (name, name))
     cnt = info.get("count", "none")
     if cnt == "plural":
-        return "%s = 1u32" % name
+        return ("%s = move || 1u32" if view else "%s = 1u32") % name
     if cnt != "none":
-        return "%s = 1%s" % (name, cnt)
+        return ("%s = move || 1%s" if view else "%s = 1%s") % (name, cnt)
     return '%s = "V"' % name
 
 
@@ -53,8 +53,11 @@ def run_l2(run, cases, load_events, nprojects, oracle):
         comps = key["comps"] if key["kind"] == "interpol" else []
         members = [(v, False) for v in sorted(vars_)] + [(k, True) for k in sorted(comps)]
         def call(ms):
+            # the three back-ends of the accessor: string, Display, view
             args = "".join(", " + arg_expr(nm, vars_.get(nm, {}), ic) for nm, ic in ms)
-            return "\n".join("    let _ = td_string!(Locale::%s, k%s);" % (l, args) for l in c["abs"]["P"]["locs"])
+            vargs = "".join(", " + arg_expr(nm, vars_.get(nm, {}), ic, view=True) for nm, ic in ms)
+            return "\n".join("    let _ = td_string!(Locale::%s, k%s);\n    let _ = td_display!(Locale::%s, k%s).to_string();\n    let _ = td!(Locale::%s, k%s).into_view();"
+                             % (l, args, l, args, l, vargs) for l in c["abs"]["P"]["locs"])
         bins = [{"name": "exact", "body": call(members), "expect": "ok", "kind": "exact", "args": [m[0] for m in members], "omitted": "none"}]
         for nm, ic in members:
             rest = [m for m in members if m[0] != nm]
